@@ -115,6 +115,10 @@ def generate(run_seed: int, tier: str) -> dict:
     for i in range(swarm.randint(2, 4)):
         f = world.gen_formula(rng, u, rich=swarm.random() < 0.8, structured_p=swarm.choice([0.0, 0.3, 0.5]), max_terms=swarm.choice([2, 3, 4]), force_ticked=True)
         if isinstance(f["spec"], str) and rng.random() < 0.3:
+            catcols = [c for c in u["cols"] if u["cols"][c]["kind"] in ("text_object", "text_default", "category")]
+            if catcols and rng.random() < 0.35:
+                # one contrasts INSTANCE held by the caller and used for one or two factors
+                f["spec"] += " + " + " + ".join(f"C({c_}, contr_obj)" for c_ in rng.sample(catcols, min(len(catcols), rng.randint(1, 2))))
             f["spec"] += rng.choice([" + lag(vec)", " + lag(vec, 2)", " + np.log(x)", " + np.sqrt(z):x" if "z" in u["cols"] else " + np.sqrt(x)", " + myfun(x)", " + {x * const}", " + myfun(x):const", " + bs(x, knots=knots, extrapolation='extend')",
                                      " + bs(x, knots=knots, degree=2, extrapolation='clip')"])
             f["uses_ctx"] = True
@@ -144,6 +148,10 @@ def generate(run_seed: int, tier: str) -> dict:
             o["na_action"] = rng.choice(["ignore", "drop"])
         if rng.random() < 0.1:
             o["cluster_by"] = "numerical_factors"
+        if rng.random() < 0.12:
+            o["materializer"] = "narwhals"
+            if o.get("output") == "sparse" and rng.random() < 0.5:
+                o["output"] = "pandas"
         return o
 
     def formula_ref(allow_obj: bool = True) -> tuple[Any, int]:
@@ -170,13 +178,22 @@ def generate(run_seed: int, tier: str) -> dict:
             ops.append({"op": "newdrop", "out": x, "init": sorted(rng.sample(range(6), rng.randint(0, 2))), "client": rng.randrange(nclients)})
         return x
 
+    enable["ephemeral"] = swarm.random() < 0.5
+    enable["touch"] = swarm.random() < 0.4
     nops = rng.randint(10, 36)
     guard = 0
     while len(ops) < nops and guard < 400:
         guard += 1
         c = rng.randrange(nclients)
         kind = core.weighted(rng, [("build", 6), ("reuse", 9), ("make_spec", 2.5 if enable["unfitted"] else 0), ("derive", 4 if enable["derive"] else 0),
-                                   ("read", 1.5), ("parse_custom", 1 if enable["parsers"] else 0), ("bad", 1.5 if enable["bad_input"] else 0)])
+                                   ("read", 1.5), ("parse_custom", 1 if enable["parsers"] else 0), ("bad", 1.5 if enable["bad_input"] else 0),
+                                   ("touch_data", 1.2 if enable["touch"] else 0)])
+        if kind == "touch_data":
+            cands = [d for d, r in datas.items() if r["container"] == "pandas" and d[1:].isdigit()]
+            numc = [c_ for c_ in u["cols"] if u["cols"][c_]["kind"] == "float"]
+            if cands and numc:
+                ops.append({"op": "touch_data", "data": rng.choice(cands), "col": rng.choice(numc), "delta": rng.choice([0.5, -1.0, 2.0]), "client": c})
+            continue
         fault = None
         if kind in ("build", "reuse") and enable["interrupt"] and rng.random() < 0.12:
             fault = {"kind": "interrupt", "at": rng.randint(1, 4000)}
@@ -263,6 +280,10 @@ def generate(run_seed: int, tier: str) -> dict:
                 mm, sp = new("M"), new("S", fitted=True)
                 ops.append({"op": "build", "formula": {"raw": "x + not_a_column"}, "data": data_ref(), "opts": {}, "entry": "model_matrix", "ctx": "C0",
                             "out_mm": mm, "out_spec": sp, "drop": maybe_drop(), "fault": {"kind": "bad_input", "which": which}, "client": c})
+    if enable["ephemeral"]:
+        for o in ops:
+            if o["op"] in ("build", "reuse") and rng.random() < 0.5:
+                o["fresh_data"] = True  # the caller builds a new frame object for this call and drops it afterwards
     return {"universe": u, "datas": datas, "contexts": contexts, "formulas": frecipes, "ops": ops, "clients": nclients,
             "np_seed": rng.getrandbits(31), "probe_data": "D0"}
 
@@ -284,6 +305,9 @@ def shared_context_values(recipe: dict) -> dict:
     """Caller-owned values that persist across the calls of one side (history or pristine child)."""
     fn = {"double": (lambda x: x * 2), "square": (lambda x: x * x), "shift": (lambda x: x + 1)}[recipe["myfun"]]
     vals: dict[str, Any] = {"const": recipe["const"], "myfun": fn, "knots": list(recipe.get("knots", [-0.5, 0.5])), **world.user_context()}
+    from formulaic.transforms.contrasts import SumContrasts
+
+    vals["contr_obj"] = SumContrasts()
     sh = recipe.get("shadow")
     if sh == "center":
         vals["center"] = lambda x: x - 1.0
@@ -318,6 +342,7 @@ def client_fn_call(spec: Any, data: Any, opts: dict, ctx: dict, drop: Any) -> An
     myfun = ctx["myfun"]  # noqa: F841
     flaky = ctx["flaky"]  # noqa: F841
     usr_center, usr_sq, usr_offset, knots, vec, ft = ctx["usr_center"], ctx["usr_sq"], ctx["usr_offset"], ctx["knots"], ctx["vec"], ctx["ft"]  # noqa: F841
+    contr_obj = ctx["contr_obj"]  # noqa: F841
     if "center" in ctx:
         center = ctx["center"]  # noqa: F841
     if "scale" in ctx:
@@ -351,6 +376,19 @@ class World:
         if name not in self.ctx:
             self.ctx[name] = shared_context_values(self.sc["contexts"][name])
         return self.ctx[name]
+
+    def build_data(self, name: str, edits: list) -> Any:
+        """A brand-new data object from the recipe with the caller's in-place edits re-applied."""
+        saved = self.data.pop(name, None)
+        try:
+            obj = self.get_data(name)
+        finally:
+            self.data.pop(name, None)
+            if saved is not None:
+                self.data[name] = saved
+        for e in edits:
+            obj[e["col"]] = obj[e["col"]] + e["delta"]
+        return obj
 
     def get_data(self, name: str) -> Any:
         if name not in self.data:
@@ -397,7 +435,24 @@ def op_outputs(op: dict) -> list[str]:
     return []
 
 
-def apply_op(sc: dict, op: dict, objs: dict, w: World, tracer: Any = None) -> dict:
+def op_data(sc: dict, op: dict, w: World, all_ops: Optional[list], seq: Optional[int]) -> Any:
+    """The data object of a build/reuse call.  The shared object normally; a brand-new equal object when the caller rebuilt
+    its frame for this call (``fresh_data``).  In a pristine child (all_ops given) the caller's earlier in-place edits of the
+    shared frame are re-applied to a fresh object."""
+    name = op["data"]
+    if all_ops is not None:
+        edits = [o for o in all_ops[:seq] if o["op"] == "touch_data" and o["data"] == name and o.get("_applied")]
+        key = (name, len(edits))
+        cache = w.__dict__.setdefault("versions", {})
+        if key not in cache:
+            cache[key] = w.build_data(name, edits)
+        return cache[key]
+    if op.get("fresh_data"):
+        return w.build_data(name, w.__dict__.setdefault("edits", {}).get(name, []))
+    return w.get_data(name)
+
+
+def apply_op(sc: dict, op: dict, objs: dict, w: World, tracer: Any = None, all_ops: Optional[list] = None, seq: Optional[int] = None) -> dict:
     """Perform one whole call.  Returns {'status','digest','products','err'}; never raises for library errors."""
     import formulaic
     from formulaic import Formula, ModelSpec, model_matrix
@@ -417,9 +472,15 @@ def apply_op(sc: dict, op: dict, objs: dict, w: World, tracer: Any = None) -> di
     try:
         with warnings.catch_warnings(record=True) as wl:
             warnings.simplefilter("always")
-            if k == "newdrop":
+            if k == "touch_data":
+                # the CALLER edits a column of its own shared frame in place (same object identity)
+                df_ = w.get_data(op["data"])
+                df_[op["col"]] = df_[op["col"]] + op["delta"]
+                w.__dict__.setdefault("edits", {}).setdefault(op["data"], []).append({"col": op["col"], "delta": op["delta"]})
+                dig: Any = ["touched", op["data"], op["col"]]
+            elif k == "newdrop":
                 products[op["out"]] = set(op["init"])
-                dig: Any = sorted(op["init"])
+                dig = sorted(op["init"])
             elif k == "parse":
                 spec = world.spec_to_python(sc["formulas"][op["fi"]]["spec"])
                 if op.get("parser"):
@@ -441,7 +502,7 @@ def apply_op(sc: dict, op: dict, objs: dict, w: World, tracer: Any = None) -> di
                 dig = spec_digest(s, Structured)
             elif k == "build":
                 fv = formula_value(sc, op["formula"], objs, op.get("append", ""))
-                data = w.get_data(op["data"])
+                data = op_data(sc, op, w, all_ops, seq)
                 ctx = make_context(w.get_ctx(op["ctx"]), op.get("fault"))
                 ctx["vec"] = w.get_vec(op["data"])
                 held["ctx"] = (ctx, dict(ctx))
@@ -467,7 +528,7 @@ def apply_op(sc: dict, op: dict, objs: dict, w: World, tracer: Any = None) -> di
                 dig = {"mm": matrix_digest(mm, Structured), "drop": sorted(drop) if drop is not None else None, "warn": sorted({x.category.__name__ for x in wl})}
             elif k == "reuse":
                 src = objs[op["src"]]
-                data = w.get_data(op["data"])
+                data = op_data(sc, op, w, all_ops, seq)
                 ctx = make_context(w.get_ctx(op["ctx"]), op.get("fault"))
                 ctx["vec"] = w.get_vec(op["data"])
                 held["ctx"] = (ctx, dict(ctx))
@@ -654,13 +715,13 @@ def oracle_eval(msg: dict) -> dict:
     for seq in msg["lineage"]:
         op = sc_op(sc, msg, seq)
         np.random.seed(core.h64("orc", sc["np_seed"], seq) % (2**32))
-        r = apply_op(sc, op, objs, w)
+        r = apply_op(sc, op, objs, w, None, msg["all_ops"], seq)
         if r["status"] != "ok":
             return {"status": "lineage-failed", "at": seq, "err": r["err"]}
         objs.update(r["products"])
     op = msg["target"]
     np.random.seed(core.h64("orc", sc["np_seed"], msg["seq"]) % (2**32))
-    r = apply_op(sc, op, objs, w)
+    r = apply_op(sc, op, objs, w, None, msg["all_ops"], msg["seq"])
     return {"status": r["status"], "digest": r["digest"], "err": r["err"], "errclass": r.get("errclass"), "hashseed": __import__("os").environ.get("PYTHONHASHSEED"),
             "factor_order": factor_order_probe(sc, op, objs)}
 
@@ -781,7 +842,7 @@ def execute(scenario: dict, env: Any) -> dict:
     stats: dict = {"ops": 0, "faults": {}, "probes": {}, "signatures": [], "nontrivial": [], "extra": {}}
     for p in ("unfitted_spec_built_on_two_datasets", "derived_spec_used_after_parent", "parent_used_after_derived", "structured_spec_reused", "restart_then_reuse",
               "alias_collision_path", "factor_order_differs_between_processes", "failed_op_followed_by_reuse_of_same_spec", "shared_drop_set_chain_len>=2",
-              "captured_frame_client_fn"):
+              "captured_frame_client_fn", "caller_edited_shared_frame_in_place", "ephemeral_data_object"):
         stats["probes"][p] = 0
     state = {"step": -1, "nontrivial": False}
     sig: list = []
@@ -872,7 +933,20 @@ def execute(scenario: dict, env: Any) -> dict:
             if fault and fault["kind"] == "interrupt":
                 tracer = Tracer(fault["at"], env.src_root + "/formulaic")
             np.random.seed(core.h64("hist", sc["np_seed"], seq) % (2**32))
+            if op["op"] == "touch_data":
+                mine = apply_op(sc, op, objs, w)
+                if mine["status"] == "ok":
+                    op["_applied"] = True
+                    inv.pop("data:" + op["data"], None)  # the caller changed it: new reference digest
+                    bump(stats, "probes", "caller_edited_shared_frame_in_place")
+                sig.append(["touch_data"])
+                log.append([seq, "touch_data", mine["status"]])
+                record_invariants()
+                seq += 1
+                continue
             mine = apply_op(sc, op, objs, w, tracer)
+            if op.get("fresh_data"):
+                bump(stats, "probes", "ephemeral_data_object")
             if mine.get("ctx_mutated"):
                 raise Violation("c18:input-mutated:context", {"op": op["op"], "why": "the context mapping passed by the caller gained/lost keys or had values rebound"})
             # ---- probes / signature
